@@ -48,9 +48,41 @@ def _case(draw, gs, plus):
     return {"g": g, "event": items, "mseed": draw(st.integers(0, 2**32)), "max_card": draw(st.sampled_from([2, 2, 2, 3]))}
 
 
+@st.composite
+def _three_world_case(draw):
+    """A confounded pair K <-> R seen in two DIFFERENT counterfactual worlds while a third item lives in a third world
+    (5..6 nodes).  Every parent of K and of R is intervened on in the item's own world, so no factual or foreign copy of
+    K or R survives in the counterfactual graph: the only thing that keeps K_s1 and R_s3 in one district is the
+    bidirected edge between copies in different worlds."""
+    names = list(draw(st.permutations(gen.NAME_POOL)))[:6]
+    k, r, a, b, c, m = names
+    di = [[a, k], [c, r]]
+    nodes = [k, r, a, b, c]
+    sa, sc = [a, draw(st.integers(0, 3)) == 0], [c, draw(st.integers(0, 3)) == 0]
+    kind = draw(st.integers(0, 2))
+    if kind == 0:  # third item: a node with a parent of its own, in that parent's world
+        nodes.append(m)
+        di.append([b, m])
+        third = {"v": m, "do": [[b, draw(st.integers(0, 3)) == 0]], "val": draw(st.integers(0, 4)) == 0}
+    elif kind == 1:  # third item: a child of a, in the world that sets a to the OTHER value
+        di.append([a, b])
+        third = {"v": b, "do": [[a, not sa[1]]], "val": draw(st.integers(0, 4)) == 0}
+    else:  # third item: an unrelated root in some third world
+        third = {"v": b, "do": [[draw(st.sampled_from([a, c])), True]], "val": False}
+        third["do"][0][1] = not (sa if third["do"][0][0] == a else sc)[1]
+    if draw(st.integers(0, 3)) == 0:
+        di.append([k, r])
+    if draw(st.integers(0, 3)) == 0:
+        di.append([a, c] if draw(st.booleans()) else [b, c])
+    g = {"nodes": list(draw(st.permutations(nodes))), "di": list(draw(st.permutations(di))), "bi": [[k, r]]}
+    items = [{"v": k, "do": [sa], "val": draw(st.integers(0, 4)) == 0}, third, {"v": r, "do": [sc], "val": draw(st.integers(0, 4)) == 0}]
+    return {"g": g, "event": list(draw(st.permutations(items))), "mseed": draw(st.integers(0, 2**32)), "max_card": 2}
+
+
 def strategy(tier):
     mx = 4 if tier == "quick" else 5
     return st.one_of(
+        _three_world_case(),
         _case(gen.admgs(2, mx), True),
         _case(gen.admgs(2, mx, bi_densities=(0, 2), di_densities=(4, 6, 8)), True),
         _case(gen.with_odd_names(gen.admgs(2, mx), 6), False),
